@@ -93,9 +93,14 @@ CHECKS = {
              "their defining quotients, the SSWU / SvdW / sqrt(-3) constants of the hash-to-curve maps. The two binary field "
              "polynomials and the two binary curves of the pinned build are judged through C16's driver against model/FbSpec "
              "(polynomial irreducible, generator on the curve, order prime and annihilating, Hasse interval, cofactor class, "
-             "Koblitz flag, level).",
-        ref="§4 C18",
-        note=_NOTE + " Primality of 256-bit values rests on the accelerator's isProbablePrime(128). Binary-curve and Edwards parameter sets are checked under C16/C17.",
+             "Koblitz flag, level). Field-size sweep: every identifier accepted in 20 further builds (FP_PRIME 315 .. 768; quick tier: 315) "
+             "with the base and GLV relations, the twelve pairing relations at k = 12, EmbeddingDegree and the new relation FamilyAtSize "
+             "(p and r are the family polynomials of BN, BLS12/24/48, KSS16, KSS18 at the curve parameter) elsewhere, j = 1728 endomorphism "
+             "relations; the bit-length and r^2 > 16p clauses are demanded at 255 / 256 / 381 bits only (K18-P354 is a 345-bit prime; GMT8, "
+             "FM16, AFG16, FM18 have r^2 < p).",
+        ref="§4 C18, §7.8",
+        note=_NOTE + " Primality of 256-bit values rests on the accelerator's isProbablePrime(128). Binary-curve and Edwards parameter sets are checked under C16/C17. "
+             "Twist relations for k != 12 are judged by C04's sweep (G2 generator on the twist, [r]G2 = O). Known finding: AFG16_P510 cofactor (keyed).",
         technique="TLC evaluation of the parameter-set relations (ParamSpec) on getter dumps of every accepted id"),
     "C20": dict(
         text="Design level: the ladder and the regular w-NAF multiplication are transcribed as their digit loops over Z_n "
@@ -196,9 +201,14 @@ CHECKS = {
              "positions) for the optimal ate (pc_map / pp_map_oatep_k12 / sim), Tate and Weil variants on BN-P256 and SM9-P256 "
              "(thorough: BLS12-381). Scalars: 0, 1, 2, 3, -1, -2, r, r+-1, r-2, 2r, small and full-size random. The final "
              "exponentiation is also judged as a function of its own on arbitrary elements of F_p12 (pp_exp_k12 out of place, in "
-             "place, through pc_exp): same value, multiplicative, image non-trivial and of order dividing r.",
-        ref="§4 C04",
-        note=_NOTE + " Equality with a textbook Miller-loop value is not claimed (the property does not ask for it). The k = 8/16/18/24/48 families are not built.",
+             "place, through pc_exp): same value, multiplicative, image non-trivial and of order dividing r. Field-size sweep "
+             "(harness/drv_ppx.c, model/PpxSpec, trace/PpxTrace): the same relations for the k = 24 (BLS24-315; quick tier: a 10-event "
+             "segment), k = 16 (KSS16-330), k = 18 (KSS18-354) and k = 8 (GMT8-544) pairings through pc_map, pp_map_* and the "
+             "simultaneous forms, Tate and Weil at k = 16 / 18; MCPairSim checks the identity-pair compaction of the multi-pairings.",
+        ref="§4 C04, §7.8",
+        note=_NOTE + " Equality with a textbook Miller-loop value is not claimed (the property does not ask for it). k = 48 and the 765/766/768-bit "
+             "sets cannot be selected in the portable configuration of the unchanged tree (skipped, named in the evidence). Known findings: the "
+             "Tate and Weil pairings of the k = 16 and k = 18 families are not bilinear (keyed; the optimal ate pairings are).",
         technique="TLC trace validation of recorded pairing evaluations against the bilinear relation over ghost logarithms (Tower/CurveX arithmetic)"),
     "C09": dict(
         text="Implementation-shaped models checked exhaustively by TLC: model/Recode (w-NAF, sliding/fixed window, regular recoding, "
@@ -352,9 +362,14 @@ CHECKS = {
              "cyclotomic subgroup densely); operands: zero, one, zero coefficients in every position, base-field / subfield elements, "
              "cyclotomic and order-r elements, exponents 0, negative, sparse, long. TLC validates every event through the refinement "
              "mapping raw Montgomery coefficients -> tower element against lib/Tower with the tower description (non-residues) revealed "
-             "by the library and checked for irreducibility.",
-        ref="§4 C10",
-        note=_NOTE + " Known findings: fp54_frb on the 256-bit pairing primes and the Frobenius constants for p = 2 (mod 3) (keyed).",
+             "by the library and checked for irreducibility. Field-size sweep: the driver installs the build's own pairing curve "
+             "(ep_param_set_any_pairf) and every admitted tower level is driven at FP_PRIME = 315 (quick tier: a 1631-event slice at levels "
+             "4, 8, 24) and, thorough, 315, 317, 330, 354, 544, 575 (k = 24, 16, 18, 8, 48 towers), incl. the sparse products of "
+             "fp16 / fp24 / fp48 / fp54 and the D-type shape of fp18 (FpxSpec!DxsPre); model/SparseHi checks the fpN_mul_dxs programs as "
+             "coded against the schoolbook product on all operands satisfying the precondition (p = 3, 5; a control outside it is refuted).",
+        ref="§4 C10, §7.8",
+        note=_NOTE + " Known findings: fp54_frb on the 256-bit pairing primes and the Frobenius constants for p = 2 (mod 3) (keyed). Not driven: "
+             "compressed squarings and decompression of degrees 24, 48, 54; fp569 (k = 54), fp638, fp766 towers.",
         technique="TLC model checking of transcribed tower formula programs against generic quotient-ring arithmetic + TLC trace validation of recorded fpN calls"),
     "C16": dict(
         text="lib/GF2m (polynomials over GF(2) modulo f, Bitwise-based with a model-checked Java accelerator) and lib/BinCurve (affine "
